@@ -62,7 +62,7 @@ pub fn run_c13(cx: &Ctx) -> i32 {
     let texts = space::texts(&alphabet, max_len);
     let tallies = par::run_workers(16, |_w, claimer| {
         engine::quiet_panics();
-        engine::set_sweep_horizons(300_000, 20_000);
+        engine::set_sweep_horizons(40_000, 5_000);
         let mut t = Tally::new();
         space.for_each(claimer, &mut |node, tag| {
             let facts = ast::facts(node);
